@@ -72,6 +72,7 @@ func findLeadingZeroPubChild(seed []byte, limit int) (uint32, bool) {
 }
 
 func runC04(c *Ctx) {
+	c.DeferredOp = "HDObserve"
 	c.Conc = true // stateless calls are also replayed from several goroutines at once
 	r := c.Rng
 	// seeds of every length: legal ones give a master key, others the documented error
@@ -163,7 +164,11 @@ func runC04(c *Ctx) {
 		net := 1 + k%len(nets)
 		calls := []Event{hdCfg(), {"op": "NewMaster", "dst": 1, "seed": ints(randBytes(r, 32)), "net": net},
 			{"op": "Child", "src": 1, "dst": 2, "idx": w32(1 << 31)}}
-		switch k % 4 {
+		switch k % 5 {
+		case 4: // erase the ancestors (parent and master) after deriving: the descendants are complete values of their own
+			calls = append(calls, Event{"op": "Child", "src": 2, "dst": 3, "idx": w32(1<<31 + 5)}, Event{"op": "Child", "src": 2, "dst": 4, "idx": w32(7)},
+				Event{"op": "Zero", "src": 2}, Event{"op": "Zero", "src": 1}, Event{"op": "Child", "src": 3, "dst": 5, "idx": w32(0)},
+				Event{"op": "Child", "src": 4, "dst": 6, "idx": w32(1 << 31)}, Event{"op": "Neuter", "src": 3, "dst": 7}, Event{"op": "Child", "src": 7, "dst": 8, "idx": w32(2)})
 		case 0: // print, change the network, print again, derive
 			calls = append(calls, Event{"op": "SetNet", "src": 2, "net": 1 + (net+1)%len(nets)}, Event{"op": "Child", "src": 2, "dst": 3, "idx": w32(1)},
 				Event{"op": "Neuter", "src": 2, "dst": 4}, Event{"op": "SetNet", "src": 4, "net": net}, Event{"op": "Child", "src": 4, "dst": 5, "idx": w32(1)})
@@ -226,6 +231,7 @@ func b58WithChecksum(p []byte) string {
 var masterSeeds = map[string][]byte{}
 
 func runC05(c *Ctx) {
+	c.DeferredOp = "HDObserve"
 	c.Conc = true // stateless calls are also replayed from several goroutines at once
 	r := c.Rng
 	// private keys assembled from scalars shorter than 32 bytes
@@ -572,6 +578,7 @@ func runC06(c *Ctx) {
 // ---------------------------------------------------------------------------- C15
 
 func runC15(c *Ctx) {
+	c.DeferredOp = "HDObserve"
 	observeNeuterIdentity = true
 	r := c.Rng
 	seeds := [][]byte{randBytes(r, 32), randBytes(r, 16), randBytes(r, 64)}
